@@ -176,6 +176,10 @@ def shift_start(rng, prog):
     to start_time, in float seconds, incl. values that do not convert exactly)"""
     small = max(prog["times"]) < 10**6
     start = rng.choice([1, 1, 7, 999, 1000, 123457] if small else [1, 10**9, 3 * 10**9, 2 * 10**9 + 1, 10**9 + 123456789])
+    if rng.random() < 0.2:
+        # long simulated times: past 2**53 ns (about 104 days) a float can no longer hold every nanosecond, so any
+        # arithmetic on instants that goes through float (seconds or nanoseconds) snaps to a 2 / 16 / 128 ns grid
+        start = rng.choice([2 * 10**16 + 1, 10**17 + 3, 10**18 + 7, 2**53 + 1])
     prog["start"] = start
     for p in prog["pre"]:
         p["time"] += start
@@ -250,7 +254,7 @@ class C01(core.Property):
             "its target is down in the stretch of the trace in which it falls due); end_time none / on a tie value / between events; fast loop or "
             "instrumented loop (control attached); a tenth of the programs (stateless ones) are run, reset() and run again, the second "
             "run being the one compared and judged; relay chains whose hop counter lives in the event metadata (handlers stamp the "
-            "delivered event and forward a copy); 30% of the programs run from a start_time other than the epoch (1 ns, off-grid, "
+            "delivered event and forward a copy); 30% of the programs run from a start_time other than the epoch (1 ns, off-grid, one in five of them past 2**53 ns where floats no longer hold every nanosecond, "
             "seconds) with the horizon given as end_time= or as duration= (float seconds relative to start_time); a run that makes more than 1500 deliveries is cut and judged as it stands. Non-trivial = at least two deliveries share a timestamp or an event is "
             "cancelled/stale/gated; distinct = distinct (program, log)")
     trusted_base = [
